@@ -205,6 +205,8 @@ func implC04(line string) string {
 		return rejectVerdict(src, o.err)
 	case "early":
 		return implEarly(f)
+	case "early2":
+		return implEarly2(f)
 	}
 	return "bad-op"
 }
@@ -310,4 +312,5 @@ func genC04(c *h.Ctx) {
 		addSource(c, randomBytes(c.Rng), "src:random-bytes")
 	}
 	genEarly(c)
+	genEarly2(c)
 }
